@@ -166,5 +166,9 @@ Theorem c09_session_index_array_correct : forall src idx dest,
 Proof. exact session_index_array_correct. Qed.
 Print Assumptions c09_session_index_array_correct.
 
-(* not stated: Session.sort_on onto the SAME group (h5py slice assignment, `sort_on_same`) is modelled and
-   checked by the correspondence only. *)
+(* Session.sort_on onto the SAME group: values are overwritten through h5py slice assignment; a 0-row
+   frame is left byte-identical (spec_sort_on), otherwise as sort_values in place *)
+Theorem c09_session_sort_on_same_correct : forall cols keys r,
+  spec_sort_on cols keys None = Some r -> session_sort_on cols keys None = Ok r.
+Proof. exact session_sort_on_same_correct. Qed.
+Print Assumptions c09_session_sort_on_same_correct.
